@@ -174,6 +174,10 @@ func compile(g *lookup, tok *token, optimize bool) (ins []instruction, slots int
 func (c *compiler) run(tok *token) (ins []instruction, slots int, err error) {
 	defer func() {
 		if r := recover(); r != nil {
+			if c.cur == nil {
+				err = fmt.Errorf("%v", r)
+				return
+			}
 			err = fmt.Errorf("%v: %v", c.cur.Pos, r)
 		}
 	}()
@@ -283,6 +287,9 @@ var builtinMap = map[string]code{
 }
 
 func (c *compiler) compile(tok *token) []instruction {
+	if tok == nil {
+		panic("missing operand") // e.g. a declaration keyword where an expression is expected
+	}
 	c.cur = tok
 	var res []instruction
 	switch tok.Symbol {
